@@ -7,6 +7,7 @@ import (
 	"fmt"
 	"io"
 	"io/fs"
+	"net"
 	"net/http"
 	"os"
 	"path/filepath"
@@ -370,7 +371,7 @@ func (c *c19) edit(l *lut) {
 		}
 	case "os", "httpdir":
 		fp := filepath.Join(l.root, filepath.FromSlash(p))
-		choice := t.Choose(6)
+		choice := t.Choose(7)
 		// a path that is, or lies below, a symbolic link made earlier is left alone (writing through a
 		// link would create files the reference tree does not know)
 		for q := p; q != "/" && q != "."; q = Dir(q) {
@@ -379,6 +380,26 @@ func (c *c19) edit(l *lut) {
 			}
 		}
 		switch choice {
+		case 6:
+			// a unix socket: an entry that is neither a regular file nor a directory
+			if l.model.hasFile(p) || l.model.dirs[p] || l.links[p] || len(fp) > 90 {
+				return
+			}
+			parent := Dir(p)
+			if parent != "/" && !l.model.mkdirAll(parent) && !l.model.dirs[parent] {
+				return
+			}
+			os.MkdirAll(filepath.Dir(fp), 0o755)
+			if ln, err := net.ListenUnix("unix", &net.UnixAddr{Name: fp, Net: "unix"}); err == nil {
+				ln.SetUnlinkOnClose(false)
+				ln.Close()
+				if l.links == nil {
+					l.links = map[string]bool{}
+				}
+				l.links[p] = true
+				c.hist = append(c.hist, "unix-socket("+p+")")
+				c.env.Stat("probe:unix_socket_below_the_root", 1)
+			}
 		case 5:
 			// a symbolic link that is no regular file for the loader: it points at nothing
 			if l.model.hasFile(p) || l.model.dirs[p] || l.links[p] {
@@ -788,7 +809,9 @@ func RunC19(env *sim.Env) {
 			c.hist = append(c.hist, "member-"+v.kind+"-panics-once")
 			env.Stat("probe:multi_with_a_member_that_panics_once", 1)
 		}
-		var loaders []jet.Loader
+		// (spare capacity, as a list built by append usually has: what one stack appends must not
+		// show up in another stack built from the same list)
+		loaders := make([]jet.Loader, 0, n+3)
 		nInitial := t.Range(1, n)
 		for _, l := range luts[:nInitial] {
 			loaders = append(loaders, l.loader)
@@ -808,6 +831,16 @@ func RunC19(env *sim.Env) {
 		// list): whatever happens to the first one later, this one keeps its construction order
 		twin := multi.NewLoader(loaders...)
 		twinOwners := append([]*lut(nil), luts[:nInitial]...)
+		if inner == nil && t.Bool(1, 2) {
+			// ... and gets a loader of its own: the two stacks share their first loaders only
+			xl := c.newLut("inmem")
+			xl.mem.Set("/twin-only.jet", "inmem:/twin-only.jet#twin")
+			xl.model.files["/twin-only.jet"] = "inmem:/twin-only.jet#twin"
+			twin.AddLoaders(xl.loader)
+			twinOwners = append(twinOwners, xl)
+			c.hist = append(c.hist, "twin-stack.AddLoaders(own)")
+			env.Stat("probe:second_stack_with_a_loader_of_its_own", 1)
+		}
 		active := luts[:nInitial]
 		kinds := []string{}
 		for _, l := range luts {
